@@ -386,6 +386,7 @@ func depthOf(g *Graph, k world.Key) int {
 }
 
 func (g *Graph) judge(rep *Report, from world.Key, label string, rec *world.Rec, devs int) {
+	rep.Outcome(OutcomeSig(rec))
 	var vs []oracle.Violation
 	if g.Cfg.Judge != nil {
 		vs = g.Cfg.Judge(oracle.NewView(rec))
